@@ -289,8 +289,21 @@ class Transactions(Driver):
                 if self.tier == "quick" and coin not in ("BTC", "LTC") and n == 3:
                     continue    # BCH/BTG/GRS inherit parse and stream from the BTC class: 3-input mixtures in thorough only
                 yield {"coin": coin, "shape": si}
+        yield {"coin": "BTC", "shape": 0, "huge": True}
 
     def execute(self, unit):
+        if unit.get("huge"):
+            # strings far beyond every consensus limit (the wire format itself has none below 2^32): one field at a time
+            base = {nm: al[0] for nm, al in self.axes}
+            for size in (4000000, 4000001, 2 ** 24 + 1):
+                for field in ("in_script", "out_script", "witness"):
+                    ax = dict(base)
+                    ax["witness"] = compress_ws(["i%d" % size] if field == "witness" else ["none"])
+                    if field != "witness":
+                        ax[field] = size
+                    case = {"coin": "BTC", "prevA": self.prevA, "axes": ax}
+                    yield case, self.run(case)
+            return
         n, ws = self.shapes[unit["shape"]]
         k = self.k
         if self.tier == "thorough" and unit["coin"] not in ("BTC", "LTC"):
@@ -308,6 +321,14 @@ class Transactions(Driver):
                     ax["witness"] = compress_ws(ws)
                     case = {"coin": unit["coin"], "prevA": self.prevA, "axes": ax}
                     yield case, self.run(case)
+        if 2 <= n <= 3:
+            # a coinbase-style outpoint among several inputs, together with the appended spent outputs (whatever the budget)
+            for extra in ({"prev": "null", "unspents": "std"}, {"prev": "null", "unspents": "big"}, {"prev": "zero", "index": U32, "unspents": "std"}):
+                ax = dict(base)
+                ax.update(extra)
+                ax["witness"] = compress_ws(ws)
+                case = {"coin": unit["coin"], "prevA": self.prevA, "axes": ax}
+                yield case, self.run(case)
 
     def run(self, case):
         code = case["coin"]
